@@ -85,11 +85,11 @@ type tstate struct {
 	bx, cx     *smt.Term
 	zf         *smt.Term
 	tmp        *smt.Term
-	meth, node *smt.Term    // BV8: which method / which node of it the thread is in
+	meth, node *smt.Term           // BV8: which method / which node of it the thread is in
 	r          [maxSlots]*smt.Term // results of earlier atomic operations of the current method
-	hold       *smt.Term    // Bool: between a successful acquire and the return of Release
-	wrote      *smt.Term    // Bool: the critical section's store has happened, Release has not returned
-	dirty      *smt.Term    // Bool: the current method call changed the lock word
+	hold       *smt.Term           // Bool: between a successful acquire and the return of Release
+	wrote      *smt.Term           // Bool: the critical section's store has happened, Release has not returned
+	dirty      *smt.Term           // Bool: the current method call changed the lock word
 }
 
 func iteTS(c *smt.Ctx, cond *smt.Term, a, b tstate) tstate {
@@ -112,10 +112,10 @@ type system struct {
 	gm     *goModel
 	c      *smt.Ctx
 	T, M   int
-	bounds []int             // asm boundary pcs
-	facts  map[int]factRegs  // register constants known at each boundary
-	ops    [][]*smt.Term     // ops[t][m]: true = Acquire, false = TryToAcquire
-	tryBad []*smt.Term       // "TryToAcquire failed but changed the lock word" indicators collected while unrolling
+	bounds []int            // asm boundary pcs
+	facts  map[int]factRegs // register constants known at each boundary
+	ops    [][]*smt.Term    // ops[t][m]: true = Acquire, false = TryToAcquire
+	tryBad []*smt.Term      // "TryToAcquire failed but changed the lock word" indicators collected while unrolling
 }
 
 type factRegs struct {
@@ -144,10 +144,10 @@ func (s *system) computeFacts() {
 	g := s.g
 	c := s.c
 	type fact struct {
-		seen            bool
-		axLock          bool
-		bx, cx          *smt.Term // nil = unknown (top)
-		bxTop, cxTop    bool
+		seen         bool
+		axLock       bool
+		bx, cx       *smt.Term // nil = unknown (top)
+		bxTop, cxTop bool
 	}
 	facts := map[int]*fact{}
 	meet := func(pc int, r regs) bool {
